@@ -545,6 +545,14 @@ fn family(rng: &mut Rng, corpus: &Corpus, deep_levels: (usize, usize), out: &mut
                 format!("{} ", base),
                 base.chars().rev().collect(),
             ];
+            // published collision pairs of popular 32-bit string hashes (FNV-1a, Java's 31*h+c, CRC-32):
+            // a table keyed by the hash alone confuses exactly these
+            let mut variants = variants;
+            if rng.chance(1, 2) {
+                let pairs: &[&[&str]] = &[&["costarring", "liquid"], &["declinate", "macallums"], &["altarage", "zinke"], &["Aa", "BB"], &["AaAa", "BBBB", "AaBB", "BBAa"], &["plumless", "buckeroo"]];
+                variants = rng.pick(pairs).iter().map(|x| x.to_string()).collect();
+                variants.push(base.to_string());
+            }
             let mut dm = serde_json::Map::new();
             for (i, k) in variants.iter().enumerate() {
                 dm.insert(k.clone(), json!(i));
